@@ -26,7 +26,9 @@ func (bs *BlockStatement) InnerText() string {
 func (bs *BlockStatement) String() string {
 	var out bytes.Buffer
 	for _, s := range bs.Statements {
-		out.WriteString("\t" + s.String() + "\n")
+		if s != nil {
+			out.WriteString("\t" + s.String() + "\n")
+		}
 	}
 	return out.String()
 }
